@@ -8,6 +8,7 @@ CONSTANTS MaxN = 4
  CaseVals = {0,1,2}
  NLab = 1
  Fuel = 120
+ Shapes = {0}
  ForLate = TRUE
  Variant = "ok"
  Emit = FALSE
